@@ -229,8 +229,10 @@ class Source:
             raise ScanError("lost anchor: mod %s in %s (%d matches)" % (name, self.path, len(hits)))
         return hits[0]
 
-    def find_plain(self, kind: str, name: str, lo=0, hi=None) -> Item:
-        """struct / enum / const / static / trait / fn (free) / type at brace depth 0 of [lo,hi)."""
+    def find_plain(self, kind: str, name: str, lo=0, hi=None, pick=None) -> Item:
+        """struct / enum / const / static / trait / fn (free) / type at brace depth 0 of [lo,hi).
+        pick=k (1-based, optional): the item is defined more than once under item-level #[cfg]s
+        (e.g. `struct Acceptor` with / without feature "stream"); take the k-th definition in textual order."""
         hi = len(self.m) if hi is None else hi
         if kind == "fn":
             pat = r"(?m)^[ \t]*(" + VIS + FNQ + r"fn\s+" + re.escape(name) + r")\b"
@@ -241,6 +243,8 @@ class Source:
             s = lo + mm.start(1)
             if self._depth_at(s, lo) == 0:
                 hits.append(s)
+        if pick is not None and len(hits) > 1 and 1 <= pick <= len(hits):
+            hits = [hits[pick - 1]]
         if len(hits) != 1:
             raise ScanError("lost anchor: %s %s in %s (%d matches)" % (kind, name, self.path, len(hits)))
         s = hits[0]
